@@ -47,7 +47,7 @@ ASSUMPTIONS = [
     'cut points of injected kills: entry of RuleMgr.create_rule/unlink_rule, EndpointsMgr.create_spec/unlink_spec/unlink_all '
     '(signature-transparent wrappers), every subprocess call, create_newnet',
 ]
-BUDGET = {'quick': (110, 32.0), 'thorough': (1400, 270.0)}
+BUDGET = {'quick': (110, 30.0), 'thorough': (1500, 260.0)}
 HASHSEEDS = [0, 1, 2, 3]
 REQUIRED_REACH = {'*': [
     'starts_complete', 'finishes_checked', 'finish_with_live_peer', 'finish_with_live_same_instance_peer',
@@ -186,7 +186,7 @@ def _violation(ctx, mech, msg, witness, case):
     ctx.violation(mech, msg, witness=witness, case=case)
 
 
-def _driven(ctx, fn, where, case, expected=()):
+def _driven(ctx, fn, where, case, expected=(), witness=None):
     """Run a driven operation; an escaping exception is a violation and ends the case."""
     try:
         return fn()
@@ -195,9 +195,22 @@ def _driven(ctx, fn, where, case, expected=()):
     except expected:
         raise
     except Exception as err:      # noqa
-        _violation(ctx, 'exception:%s@%s' % (type(err).__name__, where), '%s raised %r' % (where, err),
-                   dict(error=repr(err)), case)
+        w = dict(error=repr(err))
+        if witness is not None:
+            w.update(witness())
+        _violation(ctx, 'exception:%s@%s' % (type(err).__name__, where), '%s raised %r' % (where, err), w, case)
         raise _CaseEnd()
+
+
+def _finish_witness(host, c):
+    def witness():
+        left = c.delta & host.snapshot()
+        return dict(container=c.idx, name=c.name, stage_before_finish=c.stage,
+                    passthrough=(c.manifest or {}).get('passthrough'),
+                    hosts_that_do_not_resolve=[h for h in (c.manifest or {}).get('passthrough', [])
+                                               if h not in host.resolver and not h[0].isdigit()],
+                    registered_by_its_start_and_still_on_the_host=_items(left, 12), count_left=len(left))
+    return witness
 
 
 def _run_op(ctx, host, containers, op, initial, case, flags):
@@ -264,7 +277,8 @@ def _run_op(ctx, host, containers, op, initial, case, flags):
         interrupted_before = False
         for cut in attempts:
             before = host.snapshot()
-            status = _driven(ctx, lambda: host.finish(c, op['via'], cut), 'finish', case)
+            status = _driven(ctx, lambda: host.finish(c, op['via'], cut), 'finish', case,
+                             witness=_finish_witness(host, c))
             after = host.snapshot()
             complete = status != 'interrupted'
             suffix = ''
@@ -336,7 +350,7 @@ def _state_digest(c):
 
 def _repeat(ctx, host, c, via, case, counter, when):
     before = host.snapshot()
-    _driven(ctx, lambda: host.finish(c, via, None), 'finish(repeated)', case)
+    _driven(ctx, lambda: host.finish(c, via, None), 'finish(repeated)', case, witness=_finish_witness(host, c))
     after = host.snapshot()
     ctx.count(counter)
     if after != before:
